@@ -30,7 +30,10 @@ _STATE = {"translate_ok": False}
 
 def translate(ctx):
     _STATE["translate_ok"] = False
-    tr.generate(ctx.repo)
+    res = tr.generate(ctx.repo)
+    # ndarray fields without a shape-guarding validator, as the translator reads them from the validators' source
+    _STATE["unguarded"] = {(m, a) for m, a, g in res["array_fields"] if not g}
+    _STATE["array_fields"] = list(res["array_fields"])
     _STATE["translate_ok"] = True
 
 
@@ -957,6 +960,8 @@ KNOWN_PROBES = [
                                                              "atomic_numbers": 2}}, True),
     ("C09-scalar-array-0d", {"model": "Molecule", "kwargs": {"validate": False, "symbols": ["He"], "geometry": [0, 0, 0],
                                                              "mass_numbers": 4, "atom_labels": "a"}}, True),
+    ("C09-scalar-array-0d", {"model": "Molecule", "kwargs": {"validate": False, "symbols": ["He"], "geometry": [0, 0, 0],
+                                                             "fragments": [0]}}, True),
 ]
 
 # inputs that exhibited a finding before a fix in /repo and must now be refused by the models
@@ -1297,6 +1302,22 @@ def correspond(ctx):
             split_terms.append(f"({cn(nat)}, {clist(seps, cn)}, {clist(frs, lambda f: clist(f, cn))}, {clist(back, cn)})")
             split_meta.append({"model": "molrec", "arrays": arrays})
             corr.count("split")
+    # every ndarray field given a bare scalar: fields with a shape-guarding validator must refuse it; for the others the
+    # emitted scalar fails the schema (known finding) - which is how the generated guard table is tied to the code
+    if _STATE.get("translate_ok"):
+        allf = sorted(_STATE.get("array_fields") or [])
+        for (m_, a_, g_), rc in [((m_, a_, g_), rc) for (m_, a_, g_) in allf for rc in scalar_probe_recipes([(m_, a_)])]:
+            corr.count("scalar-probe")
+            try:
+                probs, info = oracle(rc)
+            except Refused:
+                corr.hit("scalar_refused_guarded" if g_ else "scalar_refused_unguarded")
+                continue
+            except Exception as e:
+                probs = [{"what": f"unexpected {type(e).__name__}: {e}"[:300], "observed": None}]
+            corr.hit("scalar_accepted_guarded" if g_ else "scalar_accepted_unguarded")
+            for p_ in probs:
+                corr.failures.append({"stream": "scalar-probe", "case": {"recipe": rc}, "what": p_["what"], "observed": p_["observed"]})
     for rc in MUST_REJECT:
         corr.count("must-reject")
         try:
@@ -1362,8 +1383,56 @@ def correspond(ctx):
     return corr
 
 
+def scalar_probe_recipes(fields):
+    """for each ndarray field: an instance that is given a bare scalar there (guarded fields must refuse it)"""
+    he = {"symbols": ["He"], "geometry": [0, 0, 0]}
+    out = []
+    for model, alias in fields:
+        if model == "AtomicResultProperties":
+            out.append({"model": model, "kwargs": {"calcinfo_natom": 1, alias: 1.0}})
+        elif model == "WavefunctionProperties":
+            for restricted in ([True] if alias.endswith("_a") else [False]):
+                out.append({"model": "AtomicResult", "kwargs": {
+                    "molecule": he, "driver": "energy", "model": {"method": "hf"}, "protocols": {"wavefunction": "all"},
+                    "provenance": {"creator": "x"}, "properties": {}, "return_result": 1.0, "success": True,
+                    "wavefunction": {"basis": _basis([SHELL0]), "restricted": restricted, alias: 1.0}}})
+        elif model == "Molecule":
+            val = "He" if alias in ("symbols", "atom_labels") else (True if alias == "real" else 1)
+            kw = {"validate": False, **he}
+            kw[alias] = val
+            out.append({"model": "Molecule", "kwargs": kw})
+    return out
+
+
+def incompat_sites():
+    """ask the checker where descriptors and schemas disagree (beyond the four known uniqueItems sites):
+    schema paths per model, from `incompat` evaluated on the regenerated Gen files"""
+    req = ["QV.Common.Outcome", "QV.Common.JsonS", "QV.Model.QCSchema", "QV.Gen.Schemas", "QV.Gen.FieldTypes"]
+    terms = [f"incompat (uniq_env basis_unique_sites env) defs_{n} 64 [] (TModel {cstr(n)}) S_{n}" for n in tr.SIX]
+    parts, out = coqrun.eval_terms("C09d", req, "", terms)
+    if parts is None or len(parts) != len(terms):
+        return None
+    rep = {}
+    for n, txt in zip(tr.SIX, parts):
+        import re
+        paths = ["/".join(re.findall(r'"([^"]*)"', grp)) for grp in re.findall(r"\[((?:\s*\"[^\"]*\"\s*;?)+)\]", txt)]
+        if paths:
+            rep[n] = paths
+    return rep
+
+
 def search(ctx, corr, reasons):
     """Something broke (translator / proof / disagreement): look harder for a failing input on the implementation."""
+    if _STATE["translate_ok"] and any(r.get("kind") == "proof" for r in reasons):
+        try:
+            rep = incompat_sites()
+        except Exception as e:  # diagnostics only
+            rep = None
+        if rep:
+            ctx.log("descriptor/schema incompatibilities (beyond the known uniqueItems sites):", rep)
+            for r in reasons:
+                if r.get("kind") == "proof":
+                    r["what"] += " | incompatible sites: " + json.dumps(rep)[:1500]
     found = []
     for d in corr.disagreements:
         rc = d["case"].get("recipe")
@@ -1466,8 +1535,10 @@ def _known_unique_ecp(f):
                                ["properties", "ecp_potentials", "items", "properties", "angular_momentum"]])
 
 
-STILL_0D = {"localized_fock_a", "localized_fock_b"}            # WavefunctionProperties fields without a shape validator
-STILL_0D_UNVALIDATED = {"atomic_numbers", "mass_numbers", "atom_labels"}   # Molecule(validate=False) only
+# the unguarded ndarray fields as pinned by theorem C09_unguarded_array_fields (plus Molecule.fragments items, handled below).
+# Deliberately NOT the set regenerated from the source: a validator dropped later must be reported, not absorbed.
+STILL_0D = {("WavefunctionProperties", "localized_fock_a"), ("WavefunctionProperties", "localized_fock_b"),
+            ("Molecule", "atomic_numbers"), ("Molecule", "mass_numbers"), ("Molecule", "atom_labels")}
 
 
 def _known_scalar_array(f):
@@ -1476,26 +1547,37 @@ def _known_scalar_array(f):
         return False
     rc = case.get("recipe") or {}
     kw = rc.get("kwargs") or {}
+    unguarded = STILL_0D
+    wfn = {a for m, a in unguarded if m == "WavefunctionProperties"}
+    mol = {a for m, a in unguarded if m == "Molecule"}
 
     def leaf_ok(e):
         # only: "type": "array" failing on a bare scalar that was given as a scalar to that very field, and only for
-        # the fields that still have no shape validator
-        if e["validator"] != "type" or e["schema_path"][-1] != "type" or not e["path"]:
+        # fields that have no shape-guarding validator (list read from the source by the translator)
+        if e["validator"] != "type" or e["schema_path"][-1] != "type" or not e["path"] or "is not of type 'array'" not in e["message"]:
             return False
-        fld = e["path"][-1]
+        path = list(e["path"])
+        if len(path) >= 2 and path[-2] == "fragments" and path[-1].isdigit():      # an item of Molecule.fragments
+            holder = kw
+            for p in path[:-2]:
+                holder = holder.get(p, {}) if isinstance(holder, dict) else {}
+            fr = holder.get("fragments") if isinstance(holder, dict) else None
+            return isinstance(holder, dict) and holder.get("validate") is False and isinstance(fr, list) \
+                and int(path[-1]) < len(fr) and isinstance(fr[int(path[-1])], (int, float)) and not isinstance(fr[int(path[-1])], bool)
+        fld = path[-1]
         holder = kw
-        for p in e["path"][:-1]:
+        for p in path[:-1]:
             holder = holder.get(p, {}) if isinstance(holder, dict) else {}
         if not isinstance(holder, dict):
             return False
-        if fld in STILL_0D:
-            ok_field = e["path"][-2:-1] == ["wavefunction"]
-        elif fld in STILL_0D_UNVALIDATED:
+        if fld in wfn:
+            ok_field = path[-2:-1] == ["wavefunction"]
+        elif fld in mol:
             ok_field = holder.get("validate") is False
         else:
             ok_field = False
         v = holder.get(fld)
-        return ok_field and (not isinstance(v, bool)) and isinstance(v, (int, float, str)) and "is not of type 'array'" in e["message"]
+        return ok_field and (not isinstance(v, bool)) and isinstance(v, (int, float, str))
     return _all_errors(_errors_of(f), leaf_ok)
 
 
@@ -1522,21 +1604,26 @@ TECHNIQUE = ("Coq proof: generic soundness of a descriptor-vs-schema checker (in
              "spec; differential correspondence against pydantic/jsonschema; oracle on the implementation")
 DESIGN_REF = "DESIGN.md §6 C09"
 LEVEL_TEXT = (
-    "Machine-checked (Coq 8.16.1), 21 theorems: C09_compatible_sound (if compat accepts descriptor D against schema S then the JSON emitted "
-    "for EVERY inhabitant of D is Valid for S; induction on fuel, unbounded over instances) with C09_compatible_never_rejected; "
-    "C09_validator_sound / C09_validator_complete (the executable draft-04 validator decides the relation Valid whenever it gives a verdict); "
-    "C09_inhabits_checker_sound; per run, by vm_compute on the schemas and field descriptors regenerated from the code: "
-    "C09_Molecule_conforms, C09_Provenance_conforms, C09_AtomicResultProperties_conforms (full statement); for BasisSet, AtomicInput, "
-    "AtomicResult: C09_*_conforms_modulo_uniqueItems (schema with every uniqueItems removed, all instances) and "
-    "C09_*_conforms_when_duplicate_free (schema exactly as exported, all instances whose four uniqueItems-carrying List fields hold pairwise "
-    "different items), with C09_BasisSet_conforms_refuted (the full statement is false: witnesses of known finding C09-uniqueitems) and "
-    "C09_scalar_in_array_field_refuted (0-d array finding; witnesses wavefunction.localized_fock_a and an unvalidated molecule's atomic_numbers). to_schema/from_schema index+unit core: C09_fragments_cover, "
-    "C09_separators_roundtrip, C09_fragments_roundtrip, C09_exported_geometry_in_bohr (unit branch translated from the AST), "
-    "C09_schema_roundtrip_core. Tie: Gen/Schemas.v, Gen/FieldTypes.v, Gen/ToSchemaGen.v regenerated fail-closed on every run; differential "
-    "execution on generated instances of all six models (inhabits descriptor, modelled emission == emitted text, Gallina verdict == jsonschema "
-    "verdict with and without uniqueItems, duplicate-free <-> fully valid) and on mutated documents (rejection paths); np.split/cumsum core and "
-    "unit factor against the implementation; property oracle on the implementation (jsonschema on emitted JSON under draft-04 and under the "
-    "dialect jsonschema selects itself; to_schema/from_schema v1/v2 x np_out; Molecule(**mol.dict()) == mol, equal hash; Bohr export).")
+    "Machine-checked (Coq 8.16.1), 30 theorems, all closed. Generic: C09_compatible_sound (if compat z accepts descriptor D against schema S "
+    "then the JSON emitted for EVERY inhabitant of D is Valid for S; z says whether plain ndarray fields may hold 0-d arrays; induction on "
+    "fuel, unbounded over instances), C09_compatible_never_rejected, C09_validator_sound/_complete (the executable draft-04 validator decides "
+    "the relation Valid), C09_inhabits_checker_sound, C09_strip_unique_weakens (removing uniqueItems only weakens a schema), "
+    "C09_duplicate_free_enforced (converse checker enf: validity forces the uniqueItems-carrying lists to be duplicate-free), "
+    "C09_incompat_sites_exact (the diagnostic incompat is empty iff compat accepts). Per run, by vm_compute on schemas and field descriptors "
+    "regenerated from the code: C09_{Molecule,Provenance,AtomicResultProperties}_conforms (full); C09_{BasisSet,AtomicInput,AtomicResult}_"
+    "conforms_modulo_uniqueItems and C09_{BasisSet,AtomicInput,AtomicResult}_valid_iff_duplicate_free (EXACT: for every instance, its JSON is "
+    "valid against the exported schema iff its four uniqueItems-carrying lists are duplicate-free) with C09_BasisSet_conforms_refuted and "
+    "C09_BasisSet_incompat_sites (the four schema paths). 0-d arrays: descriptors carry TArrS for ndarray fields whose validators (AST, per "
+    "run) reshape / take len(), plain TArr otherwise; C09_unguarded_array_fields pins the plain ones, C09_Molecule_0d_sites names the failing "
+    "schema paths, C09_{Molecule,AtomicResultProperties,AtomicResult}_conforms_0d_exact (every instance, 0-d arrays admitted wherever no "
+    "validator excludes them, conforms once the pinned fields are at least 1-d), C09_scalar_in_array_field_refuted (witnesses). "
+    "to_schema/from_schema index+unit core: C09_fragments_cover, C09_separators_roundtrip, C09_fragments_roundtrip, "
+    "C09_exported_geometry_in_bohr (unit branch from the AST), C09_schema_roundtrip_core. Tie: Gen/Schemas.v, Gen/FieldTypes.v (incl. the "
+    "shape-guard classification of validators), Gen/ToSchemaGen.v regenerated fail-closed; differential execution on instances of all six "
+    "models (inhabits descriptor with 0-d only at unguarded fields, modelled emission == emitted text, Gallina verdict == jsonschema verdict "
+    "with and without uniqueItems, duplicate-free <-> fully valid), mutated documents, a scalar probe of every ndarray field, molrecs from "
+    "from_arrays with user masses/isotopes/ghosts through to_schema/from_schema on every field, np.split/cumsum core, unit factor; oracle on "
+    "the implementation (jsonschema; full-field round trips v1/v2 x np_out; re-validation keeps the hash; input kept; Bohr).")
 LEVEL_NOTE = (
     "Trusted: Coq kernel + vm_compute; the hand-written models of JSON Schema draft-04 (keyword subset; patterns = anchored literal "
     "alternations with ECMA '$'), of pydantic.v1 emission (set fields, None dropped, ndarray flattened) and of the np.split/cumsum core; the "
@@ -1544,5 +1631,5 @@ LEVEL_NOTE = (
     "instance, not proved; validators that only restrict values further do not affect the theorems. Round trips through from_arrays, "
     "Molecule(**mol.dict()) equality/hash and the Bohr export of real molecules are oracles on the implementation (not theorems) beyond the "
     "index/unit core (from_arrays is C04/C06). BasisSet-bearing models conform only when duplicate-free (known findings C09-uniqueitems, "
-    "C09-uniqueitems-ecp); scalars in ndarray fields without a shape validator are excluded by Inh false (known finding C09-scalar-array-0d). "
+    "C09-uniqueitems-ecp); 0-d arrays are possible exactly at the ndarray fields without a shape-guarding validator (read from the validators' source by a small AST classifier that treats anything it does not recognise as not guarding; pinned by C09_unguarded_array_fields; known finding C09-scalar-array-0d); the classifier and the per-field scalar probe that ties it to the code are trusted/tested, not proved. Not done in this wave: the round trip through the C04 from_arrays model (MolRec.v) and alias/exclude_unset emission as generated data (by_alias forcing is still a translator guard plus the emission differential). "
     "AtomicResultProperties.schema() declares no $schema; it is read as draft-04 (stricter on 'integer' than newer drafts). No axioms.")
